@@ -9,6 +9,7 @@ use vharness::*;
 use wasmparser::{MemArg, Operator};
 use wirm::ir::function::FunctionBuilder;
 use wirm::ir::id::*;
+use wirm::ir::module::module_functions::FuncKind;
 use wirm::ir::module::module_globals::{Global, GlobalKind, LocalGlobal};
 use wirm::ir::types::{InitExpr, InitInstr, Location, Value};
 use wirm::iterator::iterator_trait::IteratingInstrumenter;
@@ -464,10 +465,11 @@ fn gen_case(r: &mut Rng, prop: &str, seed: u64, idx: u64) -> Case {
                 }
             }
             let first_site = sites.len();
-            // replace_import_in_module silently refuses when the id it looks at already is a local function
-            let i2l_refused = if let HOp::ImportToLocal(k, _) = &op {
-                catch_unwind(AssertUnwindSafe(|| module.functions.is_local(FunctionID(*k as u32)))).unwrap_or(false)
-            } else { false };
+            // replace_import_in_module resolves the function through the import (the function whose kind is Import with
+            // this ImportsID) and silently refuses when no function is that import any more
+            let i2l_fid: Option<u64> = if let HOp::ImportToLocal(k, _) = &op {
+                module.functions.iter().position(|f| matches!(f.kind(), FuncKind::Import(i) if i.import_id.0 as u64 == *k)).map(|p| p as u64)
+            } else { None };
             let rres = catch_unwind(AssertUnwindSafe(|| -> Option<u64> {
                 match &op {
                     HOp::AddLocal(Sp::F, fp) => {
@@ -527,10 +529,9 @@ fn gen_case(r: &mut Rng, prop: &str, seed: u64, idx: u64) -> Case {
                         _ => {}
                     }
                     if matches!(op, HOp::AddLocal(Sp::F, _)) { if let Some(id) = ret { for mut s in body_sites { s.owner = Owner::Func(id); sites.push(s); } } }
-                    else if let HOp::ImportToLocal(k, _) = &op {
-                        // the function id the *specification* gives the import is not known to the harness; the code
-                        // uses the ImportsID itself (D07): the owner recorded is the id the body was really stored under
-                        if !i2l_refused { for mut s in body_sites { s.owner = Owner::Func(*k); sites.push(s); } }
+                    else if let HOp::ImportToLocal(..) = &op {
+                        // the owner recorded is the id of the function that was this import: the body is stored under it
+                        if let Some(fid) = i2l_fid { for mut s in body_sites { s.owner = Owner::Func(fid); sites.push(s); } }
                     }
                 }
             }
